@@ -4,8 +4,8 @@ from vlib.core import Case
 PROP = "C14"
 SPEC_MODE = "oracle"
 KEEP_PREFIX = 0
-SIZES = {"quick": 3000, "thorough": 60000}
-BATCH = 1500
+SIZES = {"quick": 12000, "thorough": 240000}
+BATCH = 3000
 SHRINK_BUDGET = 400
 RULE = ("each case = the same traffic twice (phase A with reload ops; the op `phase B` clears all module state and runs the recorded "
         "ops of phase A again without the reloads, at the same virtual times, answering with the list of its decisions): 1-4 resources, initial circuit-breaker (error count / error ratio), flow (throttling, warm-up, reject) and hotspot (QPS reject, per-value "
